@@ -40,8 +40,11 @@ def _job(args):
     spec = REGISTRY[name]
     t0 = time.time()
     try:
-        r = verify(spec, cfg, tier, exclude=exclude)
-        d = r.as_dict()
+        if hasattr(spec, "analyze"):
+            d = spec.analyze(cfg, tier)
+        else:
+            r = verify(spec, cfg, tier, exclude=exclude)
+            d = r.as_dict()
     except Exception as e:  # noqa: BLE001
         import traceback
 
